@@ -229,13 +229,12 @@ class ShapeDomain(EventsMixin, Domain):
           out.append(len(iv.elts))
           pos += 1
         elif dimval(iv) is not None or iv.const() is not NOCONST or \
-                iv.d is UNK and iv.ty is None and iv.elts is None:
-          # scalar index: drops the axis (unknown values are loop indices)
-          if iv.d is UNK and iv.const() is NOCONST and not isinstance(
-                  node, ast.Subscript):
-            return UNK
+                iv.d == ('scalar',):
+          # scalar index (constant, dimension value, loop counter): drops
+          # the axis
           pos += 1
         else:
+          # an index of unknown nature (scalar? index vector? mask?)
           return UNK
     out.extend(d[pos:])
     return ('arr', tuple(out))
@@ -280,6 +279,11 @@ class ShapeDomain(EventsMixin, Domain):
     d = dims_of(v.d)
     if d is not None and len(d) >= 1:
       return V(('arr', d[1:]))
+    # for i in range(...): a scalar index
+    it = getattr(node, 'iter', None)
+    if isinstance(it, ast.Call) and isinstance(it.func, ast.Name) and \
+            it.func.id == 'range':
+      return V(('scalar',))
     return V(UNK)
 
   def unpack(self, v, n, node, st):
